@@ -224,8 +224,10 @@ def cases(tier):
             if heavy and not thorough and n == 2:
                 G(f"leaf/{kind}/n{n}/unary", [("leaf", {"kind": kind, "n": n, "ops": (op,)}) for op in ("T", "inv", "mul")])
                 continue
-            if heavy and n == 2:
+            if n == 2:
                 for op in UNARY:
+                    if not thorough and kind in ("softabs_dense", "blockdiag_pd") and op in ("sqrt", "mul", "div", "inv"):
+                        continue
                     G(f"leaf/{kind}/n{n}/{op}", [("leaf", {"kind": kind, "n": n, "ops": (op,)})])
             else:
                 G(f"leaf/{kind}/n{n}/unary", [("leaf", {"kind": kind, "n": n, "ops": (op,)}) for op in UNARY])
@@ -256,7 +258,7 @@ def cases(tier):
     else:
         for i, kl in enumerate(pair_kinds):
             prods.append((kl, pair_kinds[(i + 1) % len(pair_kinds)]))
-        prods += [("eig_sym", "lowrank_sym"), ("lowrank_sym", "diagonal"), ("dense_pd", "eig_sym")]
+        prods += [("lowrank_sym", "diagonal"), ("dense_pd", "eig_sym")]
     opsets = ((), ("inv",)) if not thorough else ((), ("inv",), ("T",), ("mul",), ("neg",), ("inv", "T"))
     for kl, kr in prods:
         G(f"prod/{kl}@{kr}", [("prod", {"kl": kl, "kr": kr, "n": 2, "ops": ops}) for ops in opsets])
